@@ -56,5 +56,5 @@ Ltac qc_arith :=
   | H : ?a <> ?b :> Qc |- _ => apply neq_Q in H
   | |- @eq Qc ?a ?b => apply Qc_is_canon
   end;
-  rewrite ?this_plus, ?this_minus, ?this_mult, ?this_opp in *;
+  repeat (progress rewrite ?this_plus, ?this_minus, ?this_mult, ?this_opp, ?this_div in * );
   change (this 0%Qc) with 0%Q in *; change (this 1%Qc) with 1%Q in *.
